@@ -23,7 +23,19 @@ type c15PwCase struct {
 
 func TestVerifC15Password(t *testing.T) {
 	vw.Run(t, vw.Options{Property: "C15", Engine: "password", Rule: "peer credentials as the configuration layer delivers them (plain password xor secret reference with its resolved password, or none) x BGP backend x secret handling -> passwordForSession; non-trivial = a credential is configured"},
-		func(rt *rapid.T) c15PwCase {
+		genC15Pw, runC15Pw)
+}
+
+// The same for C14: in FRR mode the neighbor's password is the plain one or the content of the referenced
+// secret, whatever the secret handling.
+func TestVerifC14Password(t *testing.T) {
+	vw.Run(t, vw.Options{Property: "C14", Engine: "password", Rule: "peer credentials as the configuration layer delivers them (plain password xor secret reference with its resolved password, or none) x BGP backend x secret handling -> passwordForSession, which is what NewSession is given; non-trivial = a credential is configured"},
+		genC15Pw, runC15Pw)
+}
+
+func genC15Pw(rt *rapid.T) c15PwCase {
+	{
+		{
 			c := c15PwCase{Type: rapid.IntRange(0, 2).Draw(rt, "type"), Handling: rapid.IntRange(0, 1).Draw(rt, "handling")}
 			switch rapid.IntRange(0, 2).Draw(rt, "cred") {
 			case 0:
@@ -32,8 +44,13 @@ func TestVerifC15Password(t *testing.T) {
 				c.Secret = rapid.SampledFrom([]string{"s3cret", "topsecret"}).Draw(rt, "secret")
 			}
 			return c
-		},
-		func(c c15PwCase, tr *vw.Trace) *vw.Violation {
+		}
+	}
+}
+
+func runC15Pw(c c15PwCase, tr *vw.Trace) *vw.Violation {
+	{
+		{
 			p := &config.Peer{Name: "peer0", Password: c.Plain}
 			if c.Secret != "" {
 				p.SecretPassword = c.Secret
@@ -62,5 +79,6 @@ func TestVerifC15Password(t *testing.T) {
 				}
 			}
 			return nil
-		})
+		}
+	}
 }
